@@ -264,6 +264,46 @@ class Topology(object):
 
 # --------------------------------------------------------------------------------------- lifetimes
 
+def unlisted_sender_rule(datagrams, sender, payload, registered):
+    """A Distribute-Broadcast-To-Network from a device the BBMD does not (any longer) have in its table - the entry was
+    deleted (the device is not told), or the BBMD dropped it while the device still waits for its own timeout.
+
+    J.4.5: "Upon receipt of a BVLL Distribute-Broadcast-To-Network message from a foreign device, the receiving BBMD shall
+    transmit a BVLL Forwarded-NPDU message on its local IP subnet [...] In addition, a Forwarded-NPDU message shall be sent
+    to each entry in its BDT [...] as well as directly to each foreign device currently in the BBMD's FDT except the
+    originating node.  If the BBMD is unable to perform the forwarding function, it shall return a BVLC-Result message to
+    the foreign device with a result code of X'0060'".  Whether a sender without a table entry is "a foreign device" for this
+    clause is not decided by the statement (later revisions of the standard have the BBMD refuse it), so both are taken:
+    the BBMD distributes nothing, or it performs the forwarding function - and the forwarding function includes every
+    device currently in the table.  What no reading allows is a distribution that leaves out a registered device: "a
+    foreign device is served from the moment its registration is acknowledged for at least its time-to-live" holds for
+    every broadcast the BBMD distributes.
+
+        datagrams   [(source address, destination address, octets)] put on the wires since the broadcast was originated
+        sender      address of the originating device ('a.b.c.d:port'), payload: the NPDU octets it handed down
+        registered  {address of the BBMD: set of addresses of the foreign devices (other than the sender) that are
+                    registered with it, acknowledged and inside their time-to-live}
+
+    -> (BBMDs the sender addressed, BBMDs among them that distributed, {BBMD: registered devices it sent no
+       Forwarded-NPDU to}); the last is empty when the rule holds.  Delivery above the device's B/IP layer (exactly one
+       copy) is judged by the caller from the recorders."""
+    asked, acted, missed = [], [], {}
+    for (src, dst, data) in datagrams:
+        m = parse_bvll(data)
+        if m["fn"] == DISTRIBUTE and src == sender and m["npdu"] == payload and dst in registered and dst not in asked:
+            asked.append(dst)
+    for b in asked:
+        to = set(dst for (src, dst, data) in datagrams
+                 if src == b and parse_bvll(data)["fn"] == FORWARDED and parse_bvll(data)["npdu"] == payload
+                 and parse_bvll(data)["origin"] == sender)
+        if to:
+            acted.append(b)
+            left_out = sorted(registered[b] - to)
+            if left_out:
+                missed[b] = left_out
+    return asked, acted, missed
+
+
 class Lifetime(object):
     """Lifetime rules of the statement for ONE foreign device.
 
